@@ -25,6 +25,9 @@ type purityItem struct {
 	// Texts (hex) are further inputs for ReadFile and Format only: malformed and unusual
 	// texts, whose results (error text included) must be as repeatable as any other
 	Texts []string `json:"texts"`
+	// Aligned makes every goroutine walk the operations in the same order (default: goroutine g
+	// starts at operation g)
+	Aligned bool `json:"aligned"`
 }
 
 type callRec struct {
@@ -103,33 +106,32 @@ func opPurity(_ rfItem, raw json.RawMessage, e *core.Emitter) any {
 			return fmt.Sprintf("ReadFile!text%d", i), withErr(append(j, jw...), err), err
 		})
 	}
-	var mu sync.Mutex
-	var recs []callRec
-	run := func(g int, op func() (string, []byte, error)) (out string) {
+	// Results are recorded per goroutine and merged after the join: a mutex shared by all
+	// calls would order them (happens-before) and hide from the race detector every pair of
+	// unsynchronised accesses that does not happen to overlap in time.
+	run := func(g int, recs *[]callRec, op func() (string, []byte, error)) {
 		defer func() {
 			if p := recover(); p != nil {
-				mu.Lock()
-				recs = append(recs, callRec{Op: "PANIC", Hash: fmt.Sprint(p), G: g})
-				mu.Unlock()
+				*recs = append(*recs, callRec{Op: "PANIC", Hash: fmt.Sprint(p), G: g})
 			}
 		}()
 		t0 := time.Since(start).Nanoseconds()
 		name, b, err := op()
 		t1 := time.Since(start).Nanoseconds()
 		h, isErr := hashOf(b, err)
-		mu.Lock()
-		recs = append(recs, callRec{Op: name, Hash: h, IsErr: isErr, T0: t0, T1: t1, G: g})
-		mu.Unlock()
-		return name
+		*recs = append(*recs, callRec{Op: name, Hash: h, IsErr: isErr, T0: t0, T1: t1, G: g})
 	}
+	var recs []callRec
 	for i := 0; i < it.Seq; i++ {
 		for _, op := range ops {
-			run(-1, op)
+			run(-1, &recs, op)
 		}
 	}
 	afterSeq, _ := json.Marshal(f)
 	var wg sync.WaitGroup
 	gate := make(chan struct{})
+	perG := make([][]callRec, it.G)
+	bar := newBarrier(it.G)
 	for g := 0; g < it.G; g++ {
 		wg.Add(1)
 		go func(g int) {
@@ -137,14 +139,55 @@ func opPurity(_ rfItem, raw json.RawMessage, e *core.Emitter) any {
 			<-gate
 			for r := 0; r < it.R; r++ {
 				for k := range ops {
-					run(g, ops[(k+g)%len(ops)])
+					j := (k + g) % len(ops)
+					if it.Aligned {
+						// every goroutine runs the same operation at the same moment: they meet at a
+						// barrier before each one (which orders nothing that happens inside it)
+						j = k
+						bar.wait()
+					}
+					run(g, &perG[g], ops[j])
 				}
 			}
 		}(g)
 	}
 	close(gate)
 	wg.Wait()
+	for _, rs := range perG {
+		recs = append(recs, rs...)
+	}
 	after, _ := json.Marshal(f)
 	return map[string]any{"calls": recs, "file_unchanged_after_sequential": bytes.Equal(snap, afterSeq), "file_unchanged_after_concurrent": bytes.Equal(snap, after),
 		"caps": caps, "ops": len(ops)}
+}
+
+// barrier is a reusable rendezvous of n goroutines.
+type barrier struct {
+	mu    sync.Mutex
+	cond  *sync.Cond
+	n     int
+	count int
+	gen   int
+}
+
+func newBarrier(n int) *barrier {
+	b := &barrier{n: n}
+	b.cond = sync.NewCond(&b.mu)
+	return b
+}
+
+func (b *barrier) wait() {
+	b.mu.Lock()
+	g := b.gen
+	b.count++
+	if b.count == b.n {
+		b.gen++
+		b.count = 0
+		b.cond.Broadcast()
+	} else {
+		for g == b.gen {
+			b.cond.Wait()
+		}
+	}
+	b.mu.Unlock()
 }
